@@ -287,34 +287,65 @@ def _bases(nbase, seed=0):
     return out
 
 
+def _lenset(nodes, cap=96):
+    """set of string lengths a regex node sequence can match (exact for the classic operators)"""
+    import re._constants as sc
+
+    cur = {0}
+    for op, av in nodes:
+        if op in (sc.LITERAL, sc.NOT_LITERAL, sc.ANY, sc.IN):
+            step = {1}
+        elif op is sc.AT:
+            step = {0}
+        elif op is sc.SUBPATTERN:
+            step = _lenset(list(av[3]), cap)
+        elif op is sc.BRANCH:
+            step = set()
+            for alt in av[1]:
+                step |= _lenset(list(alt), cap)
+        elif op in (sc.MAX_REPEAT, sc.MIN_REPEAT, getattr(sc, "POSSESSIVE_REPEAT", None)):
+            lo, hi, sub = av
+            one = _lenset(list(sub), cap)
+            step, level, k = ({0} if lo == 0 else set()), {0}, 0
+            limit = cap if hi is sc.MAXREPEAT else hi
+            while k < limit:
+                level = {x + y for x in level for y in one if x + y <= cap}
+                k += 1
+                if not level:
+                    break
+                if k >= lo:
+                    if level <= step:
+                        break
+                    step |= level
+        else:
+            raise ValueError(f"regex op {op}")
+        cur = {x + y for x in cur for y in step if x + y <= cap}
+    return cur
+
+
 def _admissible_lengths(maxn):
+    """{(verb, code): [payload byte counts <= maxn the per-code regex admits]} - from the parse tree of
+    the code's own regex (validated against re on a sample string per length by the self-check)"""
+    import re
+    import re._constants as sc
     import re._parser as sre_parse
 
-    import z3
     from ramses_tx.ramses import CODES_SCHEMA
-    from symx import core, strings
 
-    out = {}
-    core.CTX = core.Ctx([])
-    try:
-        for code, sch in CODES_SCHEMA.items():
-            for verb in (" I", "RQ", "RP", " W"):
-                pat = sch.get(verb)
-                if not isinstance(pat, str):
-                    continue
-                lo, hi = sre_parse.parse(pat).getwidth()
-                ls = []
-                for L in range(max(1, (lo + 1) // 2), min(maxn, hi // 2) + 1):
-                    cs = [z3.Int(f"c{i}") for i in range(2 * L)]
-                    s = z3.Solver()
-                    for v in cs:
-                        s.add(z3.Or(z3.And(v >= 48, v <= 57), z3.And(v >= 65, v <= 70)))
-                    r = strings.re_match_cond(pat, strings.SymStr(cs), "match")
-                    if r is True or (r is not False and (s.add(r.e) or True) and s.check() == z3.sat):
-                        ls.append(L)
-                out[(verb, str(code))] = ls
-    finally:
-        core.CTX = None
+    out, memo = {}, {}
+    for code, sch in CODES_SCHEMA.items():
+        for verb in (" I", "RQ", "RP", " W"):
+            pat = sch.get(verb)
+            if not isinstance(pat, str):
+                continue
+            if pat not in memo:
+                tree = list(sre_parse.parse(pat))
+                ls = _lenset(tree)
+                anchored = bool(tree) and tree[-1][0] is sc.AT and tree[-1][1] in (sc.AT_END, sc.AT_END_STRING)
+                if not anchored and ls:
+                    ls = set(range(min(ls), 97))
+                memo[pat] = sorted(n // 2 for n in ls if n % 2 == 0 and 2 <= n <= 2 * maxn)
+            out[(verb, str(code))] = memo[pat]
     return out
 
 
@@ -371,6 +402,9 @@ def queries(tier, seed):
                     continue  # address syntax does not depend on the code: one base, same width (others: thorough)
                 qs.append(Query(f"field[{verb}|{code}|{field}{dw:+d}]", lambda c, a=(head, pay, field, dw): D.h_field(c, *a), {"h": "field", "head": head, "pay": pay, "field": field, "dw": dw},
                                 group="field", max_secs=120, max_paths=20_000, weight=2))
+    for bi, (verb, code, head, pay) in enumerate(pick):
+        for via in (("file", "port", "dict") if thorough else ("file",)):
+            qs.append(Query(f"addrset[{verb}|{code}|{via}]", lambda c, a=(head, pay, via): D.h_addrset(c, *a), {"h": "addrset", "head": head, "pay": pay, "via": via}, group="addrset", max_secs=200, weight=3))
     sbase = [(h, p) for v, c, h, p in bases if (v, c) in ((" I", "30C9"), ("RP", "0418"))] or [(bases[0][2], bases[0][3])]
     for sk in ("dict", "log"):
         for mk in ("window", "field"):
@@ -403,7 +437,7 @@ def queries(tier, seed):
 def replay(item):
     common.plain_imports()
     h = item["params"]["h"]
-    if h in ("win", "full", "field", "array"):
+    if h in ("win", "full", "field", "array", "addrset"):
         return D.replay_decode(item)
     cex, prm = item["cex"], item["params"]
     if h == "stream":
